@@ -17,6 +17,7 @@ from sa.pyfront import Program
 from sa.symex import Interp
 
 RULES = {
+    "R-C17-g": "calculate keeps one set of result regions per position of the aggregate list (a list parallel to it), never a mapping keyed by the aggregator object",
     "R-C17-f": "pooled evaluation is the serial evaluation: the dispatch waits for every task before reduce reads the regions, and tasks write only their own blocks (imported from the C16 analysis)",
     "R-C17-e": "the compiled kernels keep no state between calls: every buffer they write is allocated inside the call (no module-level / `global` workspace)",
     "R-C17-a": "no entry point writes storage reachable from a caller-supplied argument (every store target is FRESH or a view of FRESH)",
@@ -189,6 +190,45 @@ def analyse_root(prog, fi, kind, rep, stats, RA="R-C17-a", RB="R-C17-b", extra=T
     return I
 
 
+def regions_per_position(prog, rep):
+    """R-C17-g: calculate allocates one set of result regions per POSITION of the list it is given.  A container keyed by
+    the aggregator object gives two positions that hold the same object ONE set of regions: both are filled and then
+    reduced twice (reduce is not idempotent: it differences in place), so calculate([f, g, f])[0] != calculate([f])[0]."""
+    import ast
+    n = 0
+    for module, qual in (("ccubes", "ccube.calculate"), ("xcubes", "xcube.calculate")):
+        fi = prog.func(module, qual)
+        where = fi.fq
+        cons = "%s: result regions are allocated per position of the aggregate list" % qual.split(".")[0]
+        sites = []
+        for node in ast.walk(fi.node):
+            if isinstance(node, (ast.ListComp, ast.DictComp, ast.GeneratorExp, ast.SetComp)):
+                body = [node.elt] if not isinstance(node, ast.DictComp) else [node.key, node.value]
+                if any(isinstance(c, ast.Call) and isinstance(c.func, ast.Attribute) and c.func.attr == "get_initial_regions" for b in body for c in ast.walk(b)):
+                    sites.append(node)
+            if isinstance(node, ast.Assign) and isinstance(node.targets[0], ast.Subscript) and any(
+                    isinstance(c, ast.Call) and isinstance(c.func, ast.Attribute) and c.func.attr == "get_initial_regions" for c in ast.walk(node.value)):
+                sites.append(node)
+        if len(sites) != 1:
+            rep.undecided("R-C17-g", where, cons, "%d allocation sites of get_initial_regions results" % len(sites))
+            continue
+        n += 1
+        s = sites[0]
+        if isinstance(s, ast.ListComp):
+            rep.proved("R-C17-g", "%s@%d" % (where, s.lineno), cons, "a list parallel to the aggregates")
+        elif isinstance(s, ast.DictComp) or isinstance(s, ast.Assign):
+            key = s.key if isinstance(s, ast.DictComp) else s.targets[0].slice
+            recv = {c.func.value.id for c in ast.walk(s.value) if isinstance(c, ast.Call) and isinstance(c.func, ast.Attribute) and c.func.attr == "get_initial_regions" and isinstance(c.func.value, ast.Name)}
+            if isinstance(key, ast.Name) and key.id in recv:
+                rep.violated("R-C17-g", "%s@%d" % (where, s.lineno), cons, "the regions are kept in a mapping keyed by the aggregator OBJECT: a list that holds the same object twice gets one set of regions for both positions, "
+                             "which is then reduced (differenced in place) twice", witness={"history": "c = ffunc_count(); cube.calculate([c, s, c]): every common cell of both count outputs is NaN / 0"})
+            else:
+                rep.undecided("R-C17-g", "%s@%d" % (where, s.lineno), cons, "regions stored under a key that is not recognised as a position")
+        else:
+            rep.undecided("R-C17-g", "%s@%d" % (where, s.lineno), cons, "regions are produced lazily (generator / set)")
+    rep.floor("R-C17-g", 2, n)
+
+
 def main(tier):
     rep = core.Report("C17", level="other", rules=RULES, tier=tier,
                       declined="'computing several aggregates together equals computing each alone' as a numerical statement; decided: frame conditions (no write reaches caller storage) and absence of carried state")
@@ -219,6 +259,7 @@ def main(tier):
                 k16 += 1
                 rep.add("R-C17-f", o.where, "[%s] %s" % (o.rule, o.construct), o.status, o.detail, True, o.witness)
     rep.floor("R-C17-f", 6, k16)
+    regions_per_position(prog, rep)
     rep.analysed["roots"] = ["%s [%s]" % (fi.fq, k) for fi, k in roots]
     rep.analysed["events"] = stats["events"]
     rep.analysed["write_events_classified"] = stats["mods"]
